@@ -322,8 +322,11 @@ static bool upipe_rtp_pcm_pack_handle(struct upipe *upipe, struct uref *uref,
         return false;
 
     size_t s;
-    uref_sound_size(uref, &s, NULL);
-    s *= upipe_rtp_pcm_pack->channels;
+    uint8_t sample_size = 0;
+    uref_sound_size(uref, &s, &sample_size);
+    /* number of 32-bit words this buffer holds: a buffer held since before a
+     * change of flow definition still has the channels of its own flow */
+    s *= sample_size / 4;
 
     struct ubuf *ubuf = ubuf_block_alloc(upipe_rtp_pcm_pack->ubuf_mgr,
             s * 3 /* 24 bits */);
